@@ -303,9 +303,9 @@ func c15InviteGen(t *rapid.T) c15InviteCase {
 			stateKey = raSK(rapid.SampledFrom([]string{c15Otto, c15Rita, c15Creator}).Draw(t, "otherTarget"))
 		case "room":
 			if rapid.Bool().Draw(t, "roomWhich") {
-				evRoom = c15PlainRoomID(c.Version, "elsewhere")
+				evRoom = c15OtherRoom(t, c.Version)
 			} else {
-				c.ReqRoom = c15PlainRoomID(c.Version, "elsewhere")
+				c.ReqRoom = c15OtherRoom(t, c.Version)
 			}
 		case "sig":
 			sigFault = rapid.SampledFrom(c15SigFaults).Draw(t, "sigFault")
@@ -521,9 +521,9 @@ func c15InviteV3Gen(t *rapid.T) c15InviteV3Case {
 			membership = rapid.SampledFrom([]string{"join", "leave", "ban", "knock", "-"}).Draw(t, "otherMembership")
 		case "room":
 			if rapid.Bool().Draw(t, "roomWhich") {
-				c.Room = c15PlainRoomID(c.Version, "elsewhere")
+				c.Room = c15OtherRoom(t, c.Version)
 			} else {
-				c.ReqRoom = c15PlainRoomID(c.Version, "elsewhere")
+				c.ReqRoom = c15OtherRoom(t, c.Version)
 			}
 		case "joined":
 			c.Known, c.Existing = true, "join"
